@@ -296,7 +296,9 @@ pub proof fn lemma_usable(t: Seq<char>, a: int, q: int)
 }
 
 // ---- the stream and the state after any byte prefix of it
-pub open spec fn wf_stream(xs: Seq<Seq<char>>) -> bool { forall|i: int| 0 <= i < xs.len() ==> rec_shape(#[trigger] xs[i]) && parse_entry(xs[i]) is Ok }
+pub open spec fn shapes(xs: Seq<Seq<char>>) -> bool { forall|i: int| 0 <= i < xs.len() ==> rec_shape(#[trigger] xs[i]) }
+pub open spec fn good_upto(xs: Seq<Seq<char>>, n: int) -> bool { forall|i: int| 0 <= i < n && i < xs.len() ==> parse_entry(#[trigger] xs[i]) is Ok }
+pub open spec fn wf_stream(xs: Seq<Seq<char>>) -> bool { shapes(xs) && good_upto(xs, xs.len() as int) }
 pub open spec fn stream_chars(xs: Seq<Seq<char>>) -> Seq<char> { seg(xs, 0, xs.len() as int) }
 pub open spec fn stream_bytes(xs: Seq<Seq<char>>) -> Seq<u8> { encode_utf8(stream_chars(xs)) }
 /// the state a SummaryStream is in after the first q bytes of the stream, HOWEVER they were cut into writes: the complete records
@@ -327,7 +329,7 @@ pub proof fn lemma_positions(xs: Seq<Seq<char>>, q: int)
 }
 /// the characters between the end of record r0 and character position c (inside record r): complete records r0..r, then the part of record r seen so far
 pub proof fn lemma_text_shape(xs: Seq<Seq<char>>, r0: int, r: int, c: int)
-    requires wf_stream(xs), 0 <= r0 <= r <= xs.len(), endp(xs, r) <= c, (r < xs.len() ==> c < endp(xs, r + 1)), (r == xs.len() ==> c == endp(xs, r))
+    requires shapes(xs), 0 <= r0 <= r <= xs.len(), endp(xs, r) <= c, (r < xs.len() ==> c < endp(xs, r + 1)), (r == xs.len() ==> c == endp(xs, r))
     ensures ({
         let t = stream_chars(xs);
         let pp = t.subrange(endp(xs, r), c);
@@ -361,10 +363,19 @@ pub proof fn lemma_text_shape(xs: Seq<Seq<char>>, r0: int, r: int, c: int)
         assert(seg(xs, 0, r) =~= seg(xs, 0, r0) + seg(xs, r0, r));
     }
 }
-/// ONE WRITE: from the state after p bytes, writing the next q - p bytes gives the state after q bytes
-pub proof fn lemma_step(xs: Seq<Seq<char>>, p: int, q: int)
-    requires wf_stream(xs), 0 <= p <= q <= stream_bytes(xs).len()
-    ensures write_spec(stv(xs, p), stream_bytes(xs).subrange(p, q)) == Ok::<StreamV, Seq<Map<SummaryVariable, VV>>>(stv(xs, q))
+/// ONE WRITE (whatever the records contain): the records completed by this write are parsed in order; the first one that does
+/// not parse makes the write fail with exactly the entries before it, otherwise the state after q bytes is reached
+pub open spec fn step_outcome(xs: Seq<Seq<char>>, p: int, q: int) -> core::result::Result<StreamV, Seq<Map<SummaryVariable, VV>>> {
+    let t = stream_chars(xs);
+    let rp = nrec(xs, cw(t, p)); let rq = nrec(xs, cw(t, q));
+    let recs = xs.subrange(rp, rq);
+    let f = first_bad(recs, 0);
+    if rq > rp && f < recs.len() { Err(parsed(xs, rp) + parsed(recs, f)) } else { Ok(stv(xs, q)) }
+}
+pub proof fn lemma_step_core(xs: Seq<Seq<char>>, p: int, q: int)
+    requires shapes(xs), 0 <= p <= q <= stream_bytes(xs).len()
+    ensures write_spec(stv(xs, p), stream_bytes(xs).subrange(p, q)) == step_outcome(xs, p, q),
+        nrec(xs, cw(stream_chars(xs), p)) <= nrec(xs, cw(stream_chars(xs), q)) <= xs.len(), 0 <= nrec(xs, cw(stream_chars(xs), p))
 {
     let t = stream_chars(xs); let s = stream_bytes(xs); let k = xs.len() as int;
     let cp = cw(t, p); let cq = cw(t, q); let rp = nrec(xs, cp); let rq = nrec(xs, cq);
@@ -393,13 +404,53 @@ pub proof fn lemma_step(xs: Seq<Seq<char>>, p: int, q: int)
         lemma_split_seg(xs, rp, rq);
         let recs = xs.subrange(rp, rq);
         lemma_first_bad_end(recs, 0);
-        assert forall|i: int| 0 <= i < recs.len() implies parse_entry(#[trigger] recs[i]) is Ok by { assert(recs[i] == xs[rp + i]); }
         lemma_endp_mono(xs, rp, rq);
         assert(a.len() == eq - ep) by { lemma_seg_split(xs, 0, rp, rq); }
         lemma_boff_sub(t, ep, cq, j + 2);
         assert(boff(text, j + 2) == boff(t, eq) - o);
         assert(all.skip(boff(text, j + 2)) =~= s.subrange(boff(t, eq), q));
-        assert(st.entries + parsed(recs, recs.len() as int) =~= parsed(xs, rq));
+        if first_bad(recs, 0) == recs.len() {
+            assert forall|i: int| 0 <= i < recs.len() implies parse_entry(#[trigger] recs[i]) is Ok by {}
+            assert(st.entries + parsed(recs, recs.len() as int) =~= parsed(xs, rq)) by {
+                assert forall|i: int| 0 <= i < recs.len() implies recs[i] == xs[rp + i] by {}
+            }
+        }
+    }
+}
+/// ONE WRITE of a stream whose records completed so far all parse: the state after q bytes
+pub proof fn lemma_step(xs: Seq<Seq<char>>, p: int, q: int)
+    requires shapes(xs), 0 <= p <= q <= stream_bytes(xs).len(), good_upto(xs, nrec(xs, cw(stream_chars(xs), q)))
+    ensures write_spec(stv(xs, p), stream_bytes(xs).subrange(p, q)) == Ok::<StreamV, Seq<Map<SummaryVariable, VV>>>(stv(xs, q))
+{
+    lemma_step_core(xs, p, q);
+    let t = stream_chars(xs);
+    let rp = nrec(xs, cw(t, p)); let rq = nrec(xs, cw(t, q));
+    let recs = xs.subrange(rp, rq);
+    lemma_first_bad_end(recs, 0);
+    assert forall|i: int| 0 <= i < recs.len() implies parse_entry(#[trigger] recs[i]) is Ok by { assert(recs[i] == xs[rp + i]); }
+}
+pub proof fn lemma_first_bad_at(recs: Seq<Seq<char>>, i: int, f: int)
+    requires 0 <= i <= f < recs.len(), forall|k: int| i <= k < f ==> parse_entry(#[trigger] recs[k]) is Ok, parse_entry(recs[f]) is Err
+    ensures first_bad(recs, i) == f
+    decreases f - i
+{
+    if i < f { lemma_first_bad_at(recs, i + 1, f); }
+}
+/// THE WRITE THAT COMPLETES THE FIRST MALFORMED RECORD fails with exactly the well-formed entries preceding it
+pub proof fn lemma_step_bad(xs: Seq<Seq<char>>, b: int, p: int, q: int)
+    requires shapes(xs), 0 <= p <= q <= stream_bytes(xs).len(), 0 <= b < xs.len(), good_upto(xs, b), parse_entry(xs[b]) is Err,
+        nrec(xs, cw(stream_chars(xs), p)) <= b < nrec(xs, cw(stream_chars(xs), q))
+    ensures write_spec(stv(xs, p), stream_bytes(xs).subrange(p, q)) == Err::<StreamV, Seq<Map<SummaryVariable, VV>>>(parsed(xs, b))
+{
+    lemma_step_core(xs, p, q);
+    let t = stream_chars(xs);
+    let rp = nrec(xs, cw(t, p)); let rq = nrec(xs, cw(t, q));
+    let recs = xs.subrange(rp, rq);
+    assert forall|k: int| 0 <= k < b - rp implies parse_entry(#[trigger] recs[k]) is Ok by { assert(recs[k] == xs[rp + k]); }
+    assert(recs[b - rp] == xs[b]);
+    lemma_first_bad_at(recs, 0, b - rp);
+    assert(parsed(xs, rp) + parsed(recs, b - rp) =~= parsed(xs, b)) by {
+        assert forall|i: int| 0 <= i < b - rp implies recs[i] == xs[rp + i] by {}
     }
 }
 
@@ -439,6 +490,7 @@ pub proof fn lemma_run(xs: Seq<Seq<char>>, chunks: Seq<Seq<u8>>, i: int)
         assert(s.subrange(p, q) =~= c1.skip(p));
         assert(c1.skip(p) =~= chunks[i]);
         assert(0 <= p <= q <= s.len());
+        lemma_positions(xs, q);
         lemma_step(xs, p, q);
         lemma_run(xs, chunks, i + 1);
     }
@@ -473,4 +525,56 @@ pub proof fn theorem_chunking(xs: Seq<Seq<char>>, chunks: Seq<Seq<u8>>)
     lemma_run(xs, chunks, 0);
     lemma_step(xs, 0, s.len() as int);
     assert(s.subrange(0, s.len() as int) =~= s);
+}
+
+pub proof fn lemma_run_bad(xs: Seq<Seq<char>>, b: int, chunks: Seq<Seq<u8>>, i: int)
+    requires shapes(xs), 0 <= b < xs.len(), good_upto(xs, b), parse_entry(xs[b]) is Err,
+        concat_upto(chunks, chunks.len() as int) == stream_bytes(xs), 0 <= i <= chunks.len(),
+        nrec(xs, cw(stream_chars(xs), concat_upto(chunks, i).len() as int)) <= b
+    ensures run(stv(xs, concat_upto(chunks, i).len() as int), chunks, i) == Err::<StreamV, Seq<Map<SummaryVariable, VV>>>(parsed(xs, b))
+    decreases chunks.len() - i
+{
+    let s = stream_bytes(xs); let t = stream_chars(xs);
+    if i == chunks.len() {
+        // all bytes written: every record is complete, so the malformed one would already have been reached
+        lemma_positions(xs, s.len() as int);
+        lemma_boff_full(t);
+        assert(cw(t, s.len() as int) == t.len()) by { lemma_cw_from(t, s.len() as int, t.len() as int); }
+        assert(nrec(xs, t.len() as int) == xs.len()) by { lemma_nrec_from(xs, t.len() as int, xs.len() as int); }
+    } else {
+        let p = concat_upto(chunks, i).len() as int;
+        let q = concat_upto(chunks, i + 1).len() as int;
+        lemma_concat_len(chunks, i, i + 1);
+        lemma_concat_len(chunks, i + 1, chunks.len() as int);
+        let c1 = concat_upto(chunks, i + 1);
+        assert(c1 == s.take(q));
+        assert(c1 =~= concat_upto(chunks, i) + chunks[i]);
+        assert(s.subrange(p, q) =~= c1.skip(p));
+        assert(c1.skip(p) =~= chunks[i]);
+        lemma_positions(xs, q);
+        if nrec(xs, cw(t, q)) <= b {
+            lemma_step(xs, p, q);
+            lemma_run_bad(xs, b, chunks, i + 1);
+        } else {
+            lemma_step_bad(xs, b, p, q);
+        }
+    }
+}
+/// C09, malformed streams: whatever the partition, the sequence of writes fails, and the entries collected up to the failure are exactly
+/// the well-formed entries preceding the first malformed one (the failing write is the first one that completes that entry: lemma_step_bad)
+pub proof fn theorem_chunking_malformed(xs: Seq<Seq<char>>, b: int, chunks: Seq<Seq<u8>>)
+    requires shapes(xs), 0 <= b < xs.len(), good_upto(xs, b), parse_entry(xs[b]) is Err, concat_upto(chunks, chunks.len() as int) == stream_bytes(xs)
+    ensures run(StreamV { buf: Seq::<u8>::empty(), entries: Seq::<Map<SummaryVariable, VV>>::empty() }, chunks, 0)
+        == Err::<StreamV, Seq<Map<SummaryVariable, VV>>>(parsed(xs, b))
+{
+    let t = stream_chars(xs);
+    lemma_positions(xs, 0);
+    lemma_boff_zero(t);
+    assert(cw(t, 0) == 0) by { if cw(t, 0) > 0 { lemma_boff_mono(t, 0, cw(t, 0)); } }
+    assert(nrec(xs, 0) == 0) by { if nrec(xs, 0) > 0 { lemma_endp_mono(xs, 0, nrec(xs, 0)); assert(seg(xs, 0, 0) =~= Seq::<char>::empty()); } }
+    assert(seg(xs, 0, 0) =~= Seq::<char>::empty());
+    assert(stv(xs, 0).buf =~= Seq::<u8>::empty());
+    assert(stv(xs, 0).entries =~= Seq::<Map<SummaryVariable, VV>>::empty());
+    assert(concat_upto(chunks, 0) =~= Seq::<u8>::empty());
+    lemma_run_bad(xs, b, chunks, 0);
 }
